@@ -28,7 +28,10 @@ SlotsOf(s) == [k \in 1..(s.npos + s.nkw) |-> Slot(s, k)]
 \* `prev` = the mode of an earlier sync_properties call in the same process from the same (unchanged) input file into some
 \* other output ("none" = no earlier call): the result must not depend on it (HistoryIndependent)
 \* same: the input property carries the SAME NAME as the selected slot (the commonest use: keep two declarations of one thing in step)
-Cases == {c \in [shape : Shapes, target : 1..6, input : InputKinds, mode : Modes, same : BOOLEAN] :
+\* vals: what the evaluated input value holds (--input-eval): "strs" = two different strings; "mixed" = members of different types some of
+\* which compare EQUAL (0, 1, 2, True, 2.5: True == 1) -- the Literal must list every member, in order, as written
+Cases == {c \in [shape : Shapes, target : 1..6, input : InputKinds, mode : Modes, same : BOOLEAN, vals : {"strs", "mixed"}] :
+            /\ (c.mode # "eval" => c.vals = "strs")
             /\ c.target <= c.shape.npos + c.shape.nkw
             /\ (c.mode = "eval" => c.input = "class_attr" /\ ~c.same)}        \* eval reads a top-level name; the input kind is irrelevant then
 
@@ -79,6 +82,6 @@ TargetUpdated == pc = "done" => /\ slots[c.target].ann = SrcAnn(c.mode)
                                 /\ slots[c.target].name = (IF c.mode = "eval" \/ c.same THEN Orig[c.target].name ELSE SrcName)
 RECURSIVE SetToSeq(_)
 SetToSeq(S) == IF S = {} THEN <<>> ELSE LET x == CHOOSE x \in S : TRUE IN <<x>> \o SetToSeq(S \ {x})
-Dump == pc \in {"done", "raised"} => PrintT(ToJson([c |-> [shape |-> c.shape, target |-> c.target, input |-> c.input, mode |-> c.mode, same |-> c.same, prev |-> prev], before |-> Orig, after |-> slots, raises |-> (pc = "raised"),
+Dump == pc \in {"done", "raised"} => PrintT(ToJson([c |-> [shape |-> c.shape, target |-> c.target, input |-> c.input, mode |-> c.mode, same |-> c.same, vals |-> c.vals, prev |-> prev], before |-> Orig, after |-> slots, raises |-> (pc = "raised"),
                                                     devs |-> SetToSeq(Fired)]))
 =====================================================================================
